@@ -16,3 +16,42 @@ package internal
 //@   trusted
 //@   modifies nothing
 //@   ensures len(result) == len(bytes)
+
+// byte stack used by the rule splitter (only depths 0 and 1 occur; Pop is exact for those)
+
+//@ func NewStackByte
+//@   requires [C13 stack.size] size >= 0
+//@   modifies nothing
+//@   ensures result != nil && fresh(result) && len(result.data) == 0 && fresh(sliceptr(result.data))
+
+//@ func (*stackByte).Append
+//@   requires s != nil
+//@   modifies s.data, elems(s.data)
+//@   ensures len(s.data) == old(len(s.data)) + 1 && s.data[len(s.data) - 1] == b
+//@   ensures sliceptr(s.data) == old(sliceptr(s.data)) || fresh(sliceptr(s.data))
+
+//@ func (*stackByte).IsEmpty
+//@   requires s != nil
+//@   modifies nothing
+//@   ensures result == (len(s.data) == 0)
+
+//@ func (*stackByte).LastVal
+//@   requires s != nil
+//@   modifies nothing
+//@   ensures result == ite(len(s.data) == 0, 32, s.data[len(s.data) - 1])
+
+//@ func (*stackByte).IsEqualLastVal
+//@   requires s != nil
+//@   modifies nothing
+//@   ensures result == (ite(len(s.data) == 0, 32, s.data[len(s.data) - 1]) == b)
+
+//@ func (*stackByte).Pop
+//@   requires s != nil
+//@   modifies s.data, elems(s.data)
+//@   ensures [C14 pop.depth1] old(len(s.data)) <= 1 ==> len(s.data) == 0
+//@   ensures sliceptr(s.data) == old(sliceptr(s.data)) || fresh(sliceptr(s.data))
+
+//@ func (*stackByte).Reset
+//@   requires s != nil
+//@   modifies s.data
+//@   ensures s.data == nil
